@@ -23,6 +23,7 @@
 EXTENDS Integers, Sequences, FiniteSets, TLC
 
 CONSTANTS KeyPairs,     \* <<sender key bits, receiver key bits>> of the OPN cases
+          PadKeyPairs,  \* key pairs of the OPN cases of the padding size family (must reach a receiver key above 2048 bits)
           NRand         \* seeded random mutations per case
 
 Policies == {"Basic128Rsa15", "Basic256", "Basic256Sha256", "Aes128Sha256RsaOaep", "Aes256Sha256RsaPss"}
@@ -78,16 +79,41 @@ OpnShapes == {"uri-unknown", "uri-null", "cert-null", "cert-empty", "cert-garbag
 SymShapes == {"shorter-than-sig", "mac-foreign", "token-other", "before-keys"}
 SymEncShapes == {"ct-plus1", "ct-minus1", "pad-too-large", "pad-inconsistent"}
 
+(* The boundary family of "bogus padding lengths": shape "pad-size".  The chunk is CORRECTLY signed and encrypted over a     *)
+(* hand-built plain text in which every byte between the sequence header and the signature has the value of the padding   *)
+(* size byte, so the only question is how far the announced padding reaches.  With `end' = the number of bytes in front   *)
+(* of the signature (message header and security header included) and sb = the number of padding size bytes (2 for a      *)
+(* receiver key above 2048 bits - ExtraPaddingSize -, else 1), the padding starts at  end - size - sb.                    *)
+SizeBytes(c) == IF c.kind = "opn" /\ c.rbits > 2048 THEN 2 ELSE 1
+PadSizesAll == {"zero", "one", "ordinary", "end-2", "end-1", "end", "end+1", "max"}
+\* an OPN chunk to a key of at most 2048 bits has one size byte (<= 255) and far more than 255 bytes in front of the signature:
+\* the sizes relative to `end' do not exist there, and 255 bytes of one value in front of the size byte ARE padding
+PadSizes(c) == IF c.kind = "opn" /\ SizeBytes(c) = 1 THEN {"zero", "one", "ordinary"} ELSE PadSizesAll
+\* where the announced padding starts, relative to the start of the chunk (only the sign matters for "max")
+PadStart(c) ==
+  CASE c.psz = "end-2" -> 2 - SizeBytes(c)
+    [] c.psz = "end-1" -> 1 - SizeBytes(c)
+    [] c.psz = "end" -> 0 - SizeBytes(c)
+    [] c.psz = "end+1" -> (0 - 1) - SizeBytes(c)
+    [] c.psz = "max" -> 0 - 1000
+    [] OTHER -> 1000                                    \* zero, one, ordinary: behind the sequence header
+PadClass(c) ==
+  IF c.psz \in {"zero", "one", "ordinary"} THEN "ok"
+  ELSE IF PadStart(c) >= 0 THEN "reaches-into-the-headers" ELSE "starts-in-front-of-the-chunk"
+BogusPadSize(c) == c.shape = "pad-size" /\ PadClass(c) # "ok"
+
 \* the shapes that exist for a configuration
 Shapes(c) ==
   CommonShapes
   \cup (IF ~Secured(c) THEN {}
         ELSE IF c.kind = "opn" THEN OpnShapes
         ELSE SymShapes \cup (IF c.mode = "SignAndEncrypt" THEN SymEncShapes ELSE {}))
+  \cup (IF Encrypted(c) THEN {"pad-size"} ELSE {})
 
 \* the statement: these are reported as security errors
 MustBeSecurity == {"cert-null", "cert-empty", "cert-garbage", "cert-truncated", "ct-plus1", "ct-minus1", "ct-none",
                    "plain-shorter-than-sig", "shorter-than-sig", "pad-too-large", "pad-inconsistent"}
+MustSec(c) == c.shape \in MustBeSecurity \/ BogusPadSize(c)
 
 -----------------------------------------------------------------------------
 (* the receiver as a total decision procedure *)
@@ -118,14 +144,17 @@ Receive(c, ch, rx) ==
        ELSE IF Encrypted(c) /\ ch.pad # "ok" THEN Err(TRUE, "padding")
        ELSE Chunk                                                         \* the token id is the business of the layer above
 
-Expected(c) == Receive(c, Shape(c.shape)[1], Shape(c.shape)[2])
+Expected(c) ==
+  IF c.shape = "pad-size" THEN Receive(c, [Valid EXCEPT !.pad = PadClass(c)], Rx)
+  ELSE Receive(c, Shape(c.shape)[1], Shape(c.shape)[2])
 
 DesignHolds(c) ==
   LET r == Expected(c)
   IN /\ r.class \in {"chunk", "error"}
      /\ c.shape = "valid" => r.class = "chunk"
-     /\ c.shape \in MustBeSecurity => r.class = "error" /\ r.sec
-     /\ c.shape # "valid" /\ c.shape # "token-other" => r.class = "error"
+     /\ MustSec(c) => r.class = "error" /\ r.sec
+     /\ c.shape = "pad-size" /\ ~BogusPadSize(c) => r.class = "chunk"       \* a padding that ends behind the sequence header is padding
+     /\ c.shape \notin {"valid", "token-other", "pad-size"} => r.class = "error"
 
 -----------------------------------------------------------------------------
 (* L2: the judge *)
@@ -134,16 +163,18 @@ SecurityCodes == {"BadSecurityChecksFailed", "BadCertificateInvalid", "BadSecuri
                   "BadCertificateUseNotAllowed", "BadCertificateTimeInvalid", "BadCertificateRevoked", "BadNonceInvalid",
                   "BadSecureChannelClosed", "BadIdentityTokenInvalid", "BadIdentityTokenRejected", "BadUserAccessDenied"}
 
+ShapeName(c) == IF c.shape = "pad-size" THEN "pad-size=" \o c.psz ELSE c.shape
+
 TotalViol(e) ==
   LET c == e.c
       r == e.r
-  IN IF r.fail = "setup" THEN {"case-not-built:" \o c.shape \o ":" \o r.site}
-     ELSE (IF r.fail # "none" THEN {"receive-not-total:" \o c.shape \o ":" \o r.site} ELSE {})
+  IN IF r.fail = "setup" THEN {"case-not-built:" \o ShapeName(c) \o ":" \o r.site}
+     ELSE (IF r.fail # "none" THEN {"receive-not-total:" \o ShapeName(c) \o ":" \o r.site} ELSE {})
      \cup {"receive-not-total:random-mutation:" \o r.rand.sites[i] : i \in 1..Len(r.rand.sites)}
      \cup (IF r.rand.panic > 0 /\ Len(r.rand.sites) = 0 THEN {"receive-not-total:random-mutation"} ELSE {})
      \cup (IF r.fail = "none" /\ r.class \notin {"chunk", "error"} THEN {"neither-chunk-nor-error:" \o c.shape} ELSE {})
      \cup (IF r.fail = "none" /\ c.shape = "valid" /\ r.class # "chunk" THEN {"baseline-valid-chunk-rejected:" \o r.code} ELSE {})
-     \cup (IF r.fail = "none" /\ c.shape \in MustBeSecurity /\ r.class = "chunk" THEN {"malformed-chunk-accepted:" \o c.shape} ELSE {})
-     \cup (IF r.fail = "none" /\ c.shape \in MustBeSecurity /\ r.class = "error" /\ r.code \notin SecurityCodes
-           THEN {"not-reported-as-security-error:" \o c.shape \o ":" \o r.code} ELSE {})
+     \cup (IF r.fail = "none" /\ MustSec(c) /\ r.class = "chunk" THEN {"malformed-chunk-accepted:" \o ShapeName(c)} ELSE {})
+     \cup (IF r.fail = "none" /\ MustSec(c) /\ r.class = "error" /\ r.code \notin SecurityCodes
+           THEN {"not-reported-as-security-error:" \o ShapeName(c) \o ":" \o r.code} ELSE {})
 =============================================================================
